@@ -259,6 +259,9 @@ func e2Features(seq []e2Op) []string {
 			f = append(f, fmt.Sprintf("e2pkg:%d", o.Pkg))
 		} else {
 			f = append(f, "e2var:"+o.Name, "e2type:"+o.Type)
+			if o.Name == "" && o.Type == "string" {
+				f = append(f, "e2auto:s") // the documented name of an unnamed string
+			}
 		}
 	}
 	return f
